@@ -23,6 +23,16 @@ CLAIMED.update({
  "C08": ("model_checking", API_TECH + "; well-formedness and ByteRange = byte offsets computed by API.tla's own UTF-8 decoder from the raw input bytes", "Every match object returned by every entry point is checked by TLC against the C08 invariants, with byte spans recomputed by the specification from the raw bytes (each invalid byte one rune).", API_NOTE, "6/C08"),
  "C09": ("model_checking", API_TECH + "; Replace/ReplaceFunc/Split = API.tla folds (ReplaceWith, Expand, ParseRepl, SplitWith) of the match sequence", "Replace, ReplaceFunc and Split outputs are recomputed by TLC as folds of the match sequence with the replacement mini-language parsed and expanded by the specification, for both directions, start offsets and counts.", API_NOTE, "6/C09"),
 })
+REL_NOTE = "Trusted: TLC, CommunityModules Json/IOUtils, the verif hooks (VerifNaive copy, VerifOnFind, rewrite gates) which only replace the candidate search / switch rewrites off; outside the exact fragment liveness and equality are judged between two runs of the real engine."
+CLAIMED.update({
+ "C03": ("model_checking", "trace validation of the SkipTo contract (every candidate-search event (from,to,found) recorded by a hook must skip only positions the TLA+ semantics proves dead) + relational observation validation: as-shipped vs naive scan of the same compiled program, judged by TLC (Obs_Rel)",
+         "Every candidate search the engine performs is logged and TLC rejects it if any skipped position admits a match (RegexSem.Attempt inside the fragment); results with all acceleration disabled must be identical in position, length and captures for every start offset, for patterns biased to every find mode, both directions, code-gen analysis on/off.", REL_NOTE, "6/C03"),
+ "C04": ("model_checking", "bounded-exhaustive model checking of the exported facts: TLC enumerates every string over a pattern-derived alphabet up to the bound and every attempt position, computes the matches with the TLA+ semantics and evaluates Facts.tla's meaning of each published fact",
+         "Soundness of an over-approximation is decided over ALL strings of the bounded language and all positions: each fact exported from the real compile (min/max length, anchors, prefix(es), fixed-distance literal/sets, literal-after-loop, landmark chain, first-char set, Boyer-Moore prefix) must hold at every match the specification finds.",
+         "Trusted: TLC, Json/IOUtils; set membership over the alphabet is taken from the engine's CharIn (class algebra is C16); exact oracle only inside the fragment; alphabet of 5 symbols, length <= 4 (5 in the thorough tier).", "6/C04"),
+ "C05": ("model_checking", "relational observation validation judged by TLC (Obs_Rel): the same pattern compiled as shipped and with the tree-rewrite gates on, plus equality with the TLA+ semantics inside the fragment",
+         "For every pattern, input and start offset the match and all captures with the rewrites (auto-atomic loops, ending-backtracking elimination, bump-along markers, prefix factoring, atomic-alternation reordering) must equal those with the rewrites gated off, and both equal RegexSem.Find inside the fragment.", REL_NOTE, "6/C05"),
+})
 NOT_YET = "check not built yet in this round (planned, see DESIGN.md section 6)"
 
 hooks_commits = []
@@ -48,6 +58,8 @@ m = {
   {"name": "API", "path": "spec/API.tla", "serves_properties": ["C02", "C07", "C08", "C09"], "kind_free_text": "TLA+ specification of the entry points as folds over one search function, UTF-8 decoding, iteration laws, replacement mini-language"},
   {"name": "Obs_API", "path": "spec/Obs_API.tla", "serves_properties": ["C02", "C07", "C08", "C09"], "kind_free_text": "observation validation spec over records of all entry points"},
   {"name": "Gen_Find", "path": "spec/Gen_Find.tla", "serves_properties": ["C01", "C15"], "kind_free_text": "TLC-enumerated bounded pattern grammar with predicted results (forward conformance)"},
+  {"name": "Obs_Rel", "path": "spec/Obs_Rel.tla", "serves_properties": ["C03", "C05"], "kind_free_text": "relational / SkipTo trace validation spec"},
+  {"name": "Facts", "path": "spec/Facts.tla", "serves_properties": ["C04"], "kind_free_text": "TLA+ meaning of every published compile-time fact; Obs_Facts.tla enumerates all bounded strings"},
   {"name": "Obs_Find", "path": "spec/Obs_Find.tla", "serves_properties": ["C01", "C15"], "kind_free_text": "trace/observation validation spec: recorded find results must be behaviours of RegexSem"},
  ],
  "checks": [],
